@@ -1,5 +1,7 @@
 """C12 — the block relay keeps answering whatever the config source does (spec/BlockRelay.tla,
-configuration part: active configuration, sync.RWMutex, fetch / lookup / auction / register)."""
+configuration part: active configuration, sync.RWMutex, fetch / lookup / auction / register; and
+spec/BlockRelayLocks.tla: every lock of the service and every entry point standard.New wires - incl. the REST
+daemon's BuilderBid and ValidatorRegistrations - as programs of lock operations; deadlock freedom)."""
 import json
 import os
 from concurrent.futures import ThreadPoolExecutor
@@ -9,6 +11,22 @@ PID = "C12"
 PKG = "./services/blockrelay/standard"
 TEST = "TestVerifC12"
 TRACE = ("Trace_BlockRelay_C12", "Trace_BlockRelay_C12.cfg")
+LTEST = "TestVerifC12Locks"
+LTRACE = ("Trace_BlockRelayLocks", "Trace_BlockRelayLocks.cfg")
+
+
+def _watchdog(tag):
+    # a wedged call is only ever reported after every gate of the driver is open; the watchdog is
+    # escalated on the confirming re-runs (a wedge is a deadlock: it reproduces whatever the period)
+    wd = 8000
+    if tag.startswith("confirm"):
+        n = int(tag[len("confirm"):] or "1") if tag[len("confirm"):].isdigit() else 1
+        wd = 15000 * n
+    return wd
+
+
+def lock_driver(scenarios, tag):
+    return vf.run_driver(PID, PKG, LTEST, scenarios, "locks-" + tag, env={"VERIF_WATCHDOG_MS": _watchdog(tag)}, timeout=1500)
 
 
 def driver(scenarios, tag):
@@ -30,6 +48,42 @@ def _ops(s):
         elif st["ev"] == "Source":
             src[st["op"]] = (st["out"], st.get("doc", 0))
     return kinds, src
+
+
+def lock_sig_of(s):
+    kinds, src = _ops(s)
+    bids = [[st["op"], st["out"]] for st in s["steps"] if st["ev"] == "Bid"]
+    return {"family": s["family"], "wired": bool(s["steps"][0].get("wired")), "init": s["steps"][0].get("init", 0),
+            "calls": [[o, kinds[o][0], kinds[o][1]] for o in sorted(kinds)],
+            "source": [[o] + list(src[o]) for o in sorted(src)], "bids": bids}
+
+
+def lock_nontrivial(s, rows):
+    """The antecedent: a refresh really overlapped a BuilderBid request / an immediate auction, or a BuilderBid
+    request was answered from the bid cache after a refresh, or (free schedules) the source answered while
+    another call was in flight."""
+    fam = s["family"]
+    idx = {}
+    for i, r in enumerate(rows):
+        idx.setdefault((r.get("ev"), r.get("op")), i)
+    if fam == "locks-queued":
+        # the source answered the refresh while call 1 was in its immediate auction and call 2 was in flight
+        a, b, c = idx.get(("Source", 3)), idx.get(("Bid", 1)), idx.get(("Start", 2))
+        return a is not None and b is not None and c is not None and c < a < b and ("Return", 2) in idx
+    if fam == "locks-fetchheld":
+        a, b = idx.get(("Source", 1)), idx.get(("Return", 2))
+        return a is not None and b is not None and b < a and ("Return", 1) in idx
+    if fam == "locks-warm":
+        return ("Return", 2) in idx and ("Bid", 2) not in idx and ("Return", 4) in idx
+    inflight, seen = set(), False
+    for r in rows:
+        if r.get("ev") == "Start":
+            inflight.add(r["op"])
+        elif r.get("ev") == "Return":
+            inflight.discard(r["op"])
+        elif r.get("ev") == "Source" and len(inflight) > 1:
+            seen = True
+    return seen and not inflight
 
 
 def sig_of(s):
@@ -138,6 +192,89 @@ def scenarios(tier):
     return sc
 
 
+def lock_scenarios(tier):
+    """Histories of BlockRelayLocks: the directed overlap families refresh || BuilderBid (uncached: immediate
+    auction under builderBidMu, queued requests; cached) in both orders, sequential cache histories, and
+    TLC-simulated schedules of all six entry points.  A part of the directed families also runs "wired":
+    BuilderBid over HTTP through a real REST daemon, the configuration through the real majordomo service."""
+    import random
+    quick = tier == "quick"
+    rnd = random.Random(vf.seed() * 7 + 1)
+
+    def gen(fam, **kw):
+        return vf.tlc_scenarios(PID, "Scen_BlockRelayLocks", "Scen_BlockRelayLocks_%s.cfg" % fam,
+                                name="scenl-" + fam, timeout=900, heap="2g", **kw)
+
+    nfree = 30 if quick else 400
+    with ThreadPoolExecutor(max_workers=4) as ex:
+        futs = {"queued": ex.submit(gen, "queued", exhaustive=True),
+                "fetchheld": ex.submit(gen, "fetchheld", exhaustive=True),
+                "warm": ex.submit(gen, "warm", exhaustive=True),
+                "free": ex.submit(gen, "free", num=nfree, depth=250)}
+        got = {k: f.result() for k, f in futs.items()}
+
+    def sample(hs, n):
+        hs = list(hs)
+        rnd.shuffle(hs)
+        return hs[:n]
+
+    plan = []
+    if quick:
+        q = sample(got["queued"], 60)
+        f = sample(got["fetchheld"], 60)
+        plan += [("queued", h, False) for h in q[:48]] + [("queued", h, True) for h in q[48:]]
+        plan += [("fetchheld", h, False) for h in f[:48]] + [("fetchheld", h, True) for h in f[48:]]
+        plan += [("warm", h, False) for h in sample(got["warm"], 27)]
+        plan += [("free", h, False) for h in got["free"][:nfree]]
+    else:
+        for fam in ("queued", "fetchheld", "warm"):
+            plan += [(fam, h, False) for h in got[fam]]
+        plan += [("queued", h, True) for h in sample(got["queued"], 48)]
+        plan += [("fetchheld", h, True) for h in sample(got["fetchheld"], 48)]
+        plan += [("warm", h, True) for h in sample(got["warm"], 12)]
+        fr = got["free"][:nfree]
+        plan += [("free", h, i % 5 == 0) for i, h in enumerate(fr)]
+    sc = []
+    for fam, h, wired in plan:
+        h = [dict(h[0], wired=wired)] + list(h[1:])
+        sc.append({"sc": len(sc) + 1, "family": "locks-" + fam, "steps": h})
+    return sc
+
+
+def lock_design_checks(v, tier):
+    """BlockRelayLocks: every lock of the service, every entry point as a program of lock operations.  The
+    permitted designs (the code as written; a refresh that drops the cached bids AFTER releasing the configuration
+    lock) satisfy NoDeadlock / ReturnsClean / LockBalanced / LockAccounting over all overlaps of three calls and
+    NoWedge; the control models must be rejected."""
+    thorough = tier == "thorough"
+    # quick: every pair of entry points (two bid keys), every triple within {fetch, lookup, auction, bbid} and
+    # within {fetch, bbid, register, vreg} (one key), the flush-after design, NoWedge for every pair;
+    # thorough: every triple of all six entry points (one and two keys), NoWedge for triples
+    mcs = [("pairs", 900), ("plain_a", 900), ("plain_b", 900), ("flush_after", 900), ("live", 900)]
+    if thorough:
+        mcs += [("plain_all", 1500), ("big", 2400), ("flush_after_big", 2400), ("live_big", 2400)]
+    expect = {"flush_under": ("invariant", "NoDeadlock"), "flush_under_live": ("temporal", "temporal"),
+              "queue_holding_cache": ("invariant", "NoDeadlock"), "leak_on_recheck": ("invariant", "ReturnsClean")}
+    with ThreadPoolExecutor(max_workers=6) as ex:
+        mc_futs = [ex.submit(vf.tlc_exhaustive, PID, "BlockRelayLocks", "MC_BlockRelayLocks_%s.cfg" % n,
+                             workers=4 if thorough else 2, timeout=t, name="mcl-" + n,
+                             heap="6g" if n in ("big", "flush_after_big") else "2g") for n, t in mcs]
+        self_futs = {n: ex.submit(vf.tlc, PID, "mcl-" + n, "BlockRelayLocks", "MC_BlockRelayLocks_%s.cfg" % n,
+                                  workers=1, timeout=900, heap="1g") for n in expect}
+        rs = {n: f.result() for n, f in self_futs.items()}
+        for f in mc_futs:
+            v.add_mc(f.result())
+    for n, (kind, what) in expect.items():
+        r = rs[n]
+        ok = (r["kind"] == kind and r["violated"] == what) or (kind == "temporal" and "Temporal property NoWedge was violated" in r["out"])
+        if not ok:
+            raise vf.Broken("lock model self-check: control model %s is no longer rejected with %s (%s %s)\n%s"
+                            % (n, what, r["kind"], r["violated"], r["out"][-1500:]))
+    vf.log("lock model self-check: flushing the bid cache under the configuration write lock violates NoDeadlock and "
+           "NoWedge, queueing on builderBidMu with the cache read lock held violates NoDeadlock, a re-check that "
+           "returns without Unlock violates ReturnsClean (as they must)")
+
+
 def design_checks(v, tier):
     # the configuration part as written (settings worked out under the lock; safety and NoWedge), and the same
     # property for a service that reads the configuration under the lock and works the settings out afterwards
@@ -187,21 +324,47 @@ def run(tier):
         "Env_Responds: the configuration source and the bid strategy answer every call (fairness)",
         "configuration source, accounts, signer, relays, beacon nodes, bid strategy and scheduler are scripted fakes at the service's interfaces",
     ]
+    v.assumptions.append("lock part: sync.RWMutex as Go implements it (a waiting writer blocks new readers); interface "
+                         "calls made while a lock is held are answered (Env_Responds); 'wired' histories: BuilderBid over "
+                         "HTTP through a real go-block-relay REST daemon, configuration through the real majordomo service")
     with ThreadPoolExecutor(max_workers=2) as ex:      # model checking and scenario generation side by side
         f_sc = ex.submit(scenarios, tier)
         design_checks(v, tier)
         sc = f_sc.result()
+    with ThreadPoolExecutor(max_workers=2) as ex:      # the same for the lock part (afterwards: bounded number of JVMs)
+        f_lsc = ex.submit(lock_scenarios, tier)
+        lock_design_checks(v, tier)
+        lsc = f_lsc.result()
     vf.conformance(v, sc, driver, TRACE[0], TRACE[1], sig_of, nontrivial, tlc_timeout=1500)
+    _lock_conformance(v, lsc)
     v.coverage["rule"] = ("behaviours of BlockRelay.tla (configuration part): every sequential pair of operations "
                           "(exhaustive), TLC-simulated concurrent schedules (seeded) replayed with gates inside the "
                           "critical sections, and free-running stress loops; non-trivial = a request or auction "
-                          "answered after a failing fetch or a document with an unresolvable validator; distinct by step list")
+                          "answered after a failing fetch or a document with an unresolvable validator; "
+                          "behaviours of BlockRelayLocks.tla: directed overlaps refresh || BuilderBid (immediate auction "
+                          "under builderBidMu with a second request queued; refresh held at the source across whole "
+                          "requests; cached bids) and simulated schedules of all six entry points on one service; "
+                          "non-trivial = the overlap really took place in the recorded trace; distinct by step list")
     return v.finish()
+
+
+def _lock_conformance(v, lsc):
+    # the replay directories of this second conformance run are numbered from 101 (vf.conformance numbers them
+    # per call; lib/ is shared and not edited)
+    orig = vf.save_replay
+    vf.save_replay = lambda pid, n, *a: orig(pid, n + 100, *a)
+    try:
+        vf.conformance(v, lsc, lock_driver, LTRACE[0], LTRACE[1], lock_sig_of, lock_nontrivial, tlc_timeout=1500)
+    finally:
+        vf.save_replay = orig
 
 
 def replay(path):
     v = vf.Verdict(PID, "quick")
     with open(os.path.join(path, "scenario.json")) as fh:
         s = json.load(fh)
-    vf.conformance(v, [s], driver, TRACE[0], TRACE[1], sig_of, nontrivial)
+    if str(s.get("family", "")).startswith("locks-"):
+        vf.conformance(v, [s], lock_driver, LTRACE[0], LTRACE[1], lock_sig_of, lock_nontrivial)
+    else:
+        vf.conformance(v, [s], driver, TRACE[0], TRACE[1], sig_of, nontrivial)
     return 1 if v.violations else 0
